@@ -360,7 +360,9 @@ func ValidateRequestBody(ctx context.Context, input *RequestValidationInput, req
 		}
 	}
 
-	if defaultsSet {
+	// Defaults can only be written into a body of a media type somebody can encode; a body of
+	// another type (form, multipart, text) is valid as it is and is forwarded as received.
+	if defaultsSet && RegisteredBodyEncoder(mediaType) != nil {
 		var err error
 		if data, err = encodeBody(value, mediaType); err != nil {
 			return &RequestError{
